@@ -31,12 +31,14 @@ REQUIRED = ['bipropCheck_sound', 'bipropCheckL_sound', 'infeasible_sound', 'infe
 REQUIRED_COUNTERS = ['transfer_step', 'coef_update', 'zero_cell', 'refusal', 'tie_in_initial_allocation',
                      'zero_vote_party', 'seats_total', 'seats_dict', 'seats_custom', 'd_hondt', 'sainte_lague',
                      'cert_checked_by_lean', 'cut_checked_by_lean', 'large_counts', 'str_keys', 'init_ok_confirmed',
-                     'own_multipliers_certify', 'sparse_dict', 'custom_lr_hare', 'custom_ha_other']
+                     'own_multipliers_certify', 'sparse_dict', 'custom_lr_hare', 'custom_ha_other', 'name_clash',
+                     'name_clash_transfer']
 RULE = ('2-6 districts x 2-6 parties, non-negative integer votes (tiny 0-3, small, mid, up to 10^25; zero cells given as 0 or '
         'as a missing key; zero-vote '
         'parties), D\'Hondt and Sainte-Lague, seats as a total (1..~5m), explicit per-district dict, or custom apportioner '
         '(LargestRemainder hare, HighestAverages of the other rule, uniform int, dict apportioner); only instances whose two '
-        'marginal apportionments are tie-free (real HighestAverages and an independent reference agree on that). '
+        'marginal apportionments are tie-free (real HighestAverages and an independent reference agree on that); district / '
+        'party keys as disjoint ints, disjoint strs, or CLASHING (party j named like district j; ints or strs, ~20% of cases). '
         'Non-trivial = at least one tie-and-transfer iteration or a refusal; distinct by canonical request.')
 NOT_VERIFIED = [
     'termination of the tie-and-transfer loop is runtime behaviour: monitored by wall clock only (5 s per call); the Lean '
@@ -73,7 +75,11 @@ LEVEL_NOTE = ('Trusted: Lean kernel + propext/Classical.choice/Quot.sound; trans
               'one is reported as a violation; generator bounds 2-6 x 2-6; termination by wall clock only.')
 
 DIVS = ['d_hondt', 'sainte_lague']
-P_OFF = 100          # int party keys are P_OFF + j so that district and party keys never coincide
+P_OFF = 100          # int party keys are P_OFF + j so that district and party keys do not coincide ...
+# ... except in the name-clash modes: keys = 'int_clash' (party j is the int j, like district j) and 'str_clash'
+# (party j is called 'd<j>', like district j).  Nothing in the property or in votelib's types forbids a party and a
+# district to share a name; the model works on ids, so correspondence and certificate oracle expose any dependence.
+KEY_MODES = ('int', 'str', 'int_clash', 'str_clash')
 
 
 # ------------------------------------------------------------------------------------------------
@@ -306,11 +312,12 @@ def lean_infeasible_cert(V, row, col, S, T):
 # running the real evaluator
 
 def _dk(case, i):
-    return i if case.get('keys', 'int') == 'int' else f'd{i}'
+    return i if case.get('keys', 'int').startswith('int') else f'd{i}'
 
 
 def _pk(case, j):
-    return P_OFF + j if case.get('keys', 'int') == 'int' else f'p{j}'
+    k = case.get('keys', 'int')
+    return {'int': P_OFF + j, 'int_clash': j, 'str': f'p{j}', 'str_clash': f'd{j}'}[k]
 
 
 def _matrix(case):
@@ -513,6 +520,8 @@ def oracle(case, obs):
 
 
 def signature(case, clause):
+    if case.get('keys', 'int').endswith('_clash'):
+        return f'biprop:name_clash:{clause}'      # input class: a party bears the name of a district
     return f'biprop:{clause}'
 
 
@@ -525,7 +534,7 @@ def nontrivial(case, obs):
 
 def model_line(case):
     import votelib.evaluate.proportional as vp
-    if case.get('keys', 'int') != 'int':
+    if not case.get('keys', 'int').startswith('int'):
         return None          # str keys: frozenset order depends on the hash seed (certificate-checked only)
     sp = case['seats']
     qv = vp.BiproportionalEvaluator.SIGNPOST_QS.get(case['divisor'])
@@ -646,8 +655,12 @@ def _admit(case):
     tags.append('seats_' + sp['kind'])
     if sp['kind'] == 'custom':
         tags.append('custom_' + sp['apportioner'])
-    if case.get('keys') == 'str':
+    if case.get('keys', 'int').startswith('str'):
         tags.append('str_keys')
+    if case.get('keys', 'int').endswith('_clash'):
+        tags.append('name_clash')
+        if obs.get('transfers', 0) > 0:
+            tags.append('name_clash_transfer')
     if any(v == 0 for r in V for v in r):
         tags.append('zero_cell')
     if any(all(V[i][j] == 0 for i in range(m)) for j in range(n)):
@@ -692,7 +705,7 @@ def _random_case(rng):
             if not any(V[i]):
                 V[i][(j + 1) % n] = 1 + rng.randint(0, 5)
     divisor = rng.choice(DIVS)
-    keys = 'str' if rng.random() < 0.15 else 'int'
+    keys = rng.choice(['int'] * 13 + ['str'] * 3 + ['int_clash'] * 3 + ['str_clash'])
     sparse = rng.random() < 0.06 and any(v == 0 for r in V for v in r)
     return _mk(rng, V, divisor, _seat_spec(rng, V, divisor), keys=keys, sparse=sparse,
                tags=['sparse_dict'] if sparse else [])
@@ -786,6 +799,8 @@ def _witness_cases():
     yield _mk(None, [[3, 2], [5, 10], [3, 2]], 'd_hondt', {'kind': 'total', 'n': 10}, tags=['witness_7aec924'])
     yield _mk(None, [[3, 2, 0], [5, 10, 0]], 'd_hondt', {'kind': 'total', 'n': 6}, tags=['witness_514f123'])
     yield _mk(None, [[3, 2], [5, 10], [3, 2]], 'd_hondt', {'kind': 'total', 'n': 10}, keys='str', tags=['witness_7aec924'])
+    for km in ('int', 'str', 'int_clash', 'str_clash'):      # the name-clash witness next to its disjoint-name twins
+        yield _mk(None, [[100, 2], [21, 21]], 'd_hondt', {'kind': 'total', 'n': 3}, keys=km, tags=['witness_name_clash'])
     yield _mk(None, [[3, 0], [5, 10]], 'd_hondt', {'kind': 'total', 'n': 4}, sparse=True, tags=['witness_ac330c6', 'sparse_dict'])
     yield _mk(None, [[3, 0, 1], [5, 10, 0], [0, 4, 1]], 'sainte_lague', {'kind': 'total', 'n': 5}, sparse=True,
               tags=['witness_ac330c6', 'sparse_dict'])
